@@ -665,9 +665,10 @@ func (f *fileConfig) Reload(opts ...ReloadedConfigDataOption) error {
 		opt(newData)
 	}
 
-	// reread the configs
+	// reread the configs; as at startup (see NewConfig) a non-nil config that
+	// comes with an error has only warnings and is acceptable
 	cfg, err := newFileConfig(f.opts, newData.configs, newData.rules)
-	if err != nil {
+	if cfg == nil {
 		return err
 	}
 
